@@ -62,7 +62,7 @@ func TestC15(t *testing.T) {
 
 	L := ev.Pick(5, 7)
 	LAsync := ev.Pick(4, 6)
-	LLarge := ev.Pick(3, 5) // nearly empty caches of capacity 99..250
+	LLarge := ev.Pick(3, 5)     // nearly empty caches of capacity 99..250
 	nRandom := ev.Pick(12, 400) // per capacity, per policy
 
 	var variants []variant
